@@ -123,7 +123,7 @@ def timer_clauses(c, freq, enable, tx, rx, keepalive, recovery, ka_t, rec_t, rea
     ka_t / rec_t: the unit's two counters.  reach: the keepalive covers are reached by BMC; deep: the recovery cover too;
     reach=None: covers only as satisfiability with the invariant."""
     # From the statement / the documented intervals, in cycles of this clock (not taken from the elaborated netlist)
-    K = int(round(10e-6 * freq))          # keepalive interval
+    K = int(10e-6 * freq + 1e-6)          # keepalive interval: the whole number of cycles not exceeding the nominal 10 us (1e-6: float noise)
     N = int(round(1e-3 * freq))           # 1 ms
     TEN_MS = int(round(10e-3 * freq))
 
